@@ -20,7 +20,7 @@ from sigma.processing.pipeline import ProcessingPipeline
 from sigma.processing.resolver import ProcessingPipelineResolver
 from sigma.rule import SigmaRule
 from vlib.obl import Ob
-from vlib.params import P, concrete_section, fin
+from vlib.params import P, concrete_section, fin, sel, selb
 
 PROPERTY = "C14"
 TARGETS = [
@@ -36,7 +36,7 @@ TARGETS = [
     "sigma.conversion.base:Backend.finalize",
 ]
 BOUNDS = {
-    "resolver": "4 named pipelines, priorities 0..2 each (ties included), every non-empty subset in every order, resolved once or twice",
+    "resolver": "4 named pipelines, priorities 0..1 (quick) / 0..2 (thorough) each (ties included), every non-empty subset in every order, resolved once or twice",
     "addition": "3 operands + empty pipeline, 6 bracketing/history variants",
     "stages": "backend/user/output-format pipelines present or absent, output format omitted / 'default' / 'alt', 1..2 rules x 1..2 conditions",
     "outside": "more than 4 pipelines; pipelines loaded from directories (file I/O)",
@@ -132,37 +132,28 @@ def check_resolver(prios, spec, twice: bool) -> bool:
     return convert_with(r1, 2, 2) == convert_with(ref, 2, 2)
 
 
-def c14a_resolver(p0: int, p1: int, p2: int, p3: int, m0: bool, m1: bool, m2: bool, m3: bool, pi: int, twice: bool) -> bool:
+ARRANGEMENTS = [list(perm) for k in range(1, 5) for perm in itertools.permutations(NAMES, k)]  # 64 spec lists
+
+
+def c14a_resolver(p0: int, p1: int, p2: int, p3: int, ai: int, twice: bool) -> bool:
     """
-    pre: 0 <= p0 <= 2 and 0 <= p1 <= 2 and 0 <= p2 <= 2 and 0 <= p3 <= 2
-    pre: 0 <= pi < 24
+    pre: 0 <= p0 <= P("PMAX", 1) and 0 <= p1 <= P("PMAX", 1) and 0 <= p2 <= P("PMAX", 1) and 0 <= p3 <= P("PMAX", 1)
+    pre: 0 <= ai < len(ARRANGEMENTS)
     post: _
     """
+    spec = ARRANGEMENTS[sel(ai, len(ARRANGEMENTS))]
     ps = [p0, p1, p2, p3]
     prios = []
     for i in range(4):
-        v = 0
-        for j in range(3):
-            if ps[i] == j:
-                v = j
-        prios.append(v)
-    ms = [True if m0 else False, True if m1 else False, True if m2 else False, True if m3 else False]
-    members = [NAMES[i] for i in range(4) if ms[i]]
-    if not members:
-        return True
-    for i in range(4):
-        if not ms[i] and prios[i] != 0:
-            return True  # canonical form
-    perms = list(itertools.permutations(members))
-    perm = perms[0]
-    for j in range(len(perms)):
-        if pi == j:
-            perm = perms[j]
-    if pi >= len(perms):
-        return True
-    tw = True if twice else False
+        if NAMES[i] in spec:
+            prios.append(sel(ps[i], P("PMAX", 1) + 1))
+        else:
+            if ps[i] != 0:
+                return True  # canonical form: priority of an unused pipeline is irrelevant
+            prios.append(0)
+    tw = selb(twice)
     with concrete_section():
-        ok = check_resolver(prios, perm, tw)
+        ok = check_resolver(prios, spec, tw)
     return fin(ok)
 
 
@@ -263,7 +254,8 @@ def c14a_concrete(p0: int, p1: int, p2: int, p3: int, spec_csv: str, twice: bool
 
 
 OBLIGATIONS = [
-    Ob("c14a_resolver", {}, 900),
+    Ob("c14a_resolver", {"PMAX": 1}, 900),
+    Ob("c14a_resolver", {"PMAX": 2}, 3000, tier="thorough"),
     Ob("c14b_add", {}, 300),
     Ob("c14c_stages", {}, 300),
 ]
